@@ -472,7 +472,7 @@ func init() {
 		csCov := clientSessionEngine(run, tier)
 		run.Finish("model_checking", evid.Coverage{
 			"clientsession": csCov,
-			"states": mc.Distinct, "transitions": mc.Generated, "traces_validated_against_impl": nrun + nh,
+			"states":        mc.Distinct, "transitions": mc.Generated, "traces_validated_against_impl": nrun + nh,
 			"cases_in_model": len(cases), "cases_run": nrun, "hostile_calls": nh, "exhaustive": stride == 1,
 			"samples":     []interface{}{cases[1], cases[len(cases)/2]},
 			"checker_cmd": mc.Cmd,
